@@ -71,10 +71,64 @@ def u_scheme_init_defaults(I):
     out = run_target(I, SCH, 'GroupAdditivityScheme.__init__', args, self_obj=o)
     f = o.fields
     check_outcome(I, out, raises={}, returns=lambda r: [
-        ('the scheme holds exactly the objects it was given', z3.BoolVal([id(f.get(k)) for k in ('patterns', 'pretreatment_rules', 'remaps', 'other_descriptors',
-                                                                                                 'smiles_based_descriptors', 'smarts_based_descriptors')] == ids)),
+        ('the scheme holds what it was given (the containers themselves or copies with the same contents)',
+         z3.BoolVal([f.get(k) for k in ('patterns', 'pretreatment_rules', 'remaps', 'other_descriptors', 'smiles_based_descriptors', 'smarts_based_descriptors')]
+                    == [[{'p': 1}], [], {'a': [[1, 'b']]}, [], [], []])),
         ('nothing outside the new object is written (no include => no += on a shared default)', z3.BoolVal(not writes_of(ctx))),
         ('arguments are not modified', z3.BoolVal(args == [[{'p': 1}], [], {'a': [[1, 'b']]}, [], [], []]))])
+    return {'inputs': {}}
+
+
+def u_scheme_init_include(I):
+    """GroupAdditivityScheme(include=[other scheme]) with every other argument left at its default: the new scheme gets the included
+    content, and NOTHING that outlives the call is written -- in particular not the default-argument objects, which python shares between
+    all calls (a second scheme built the same way must not inherit the first one's patterns)"""
+    ctx = I.ctx
+    cls = source.module(SCH).classes['GroupAdditivityScheme']
+    inc = Obj(cls, {'patterns': [{'p': 'inc'}], 'pretreatment_rules': [], 'remaps': {'a': [[1, 'b']]}, 'other_descriptors': [{'d': 1}],
+                    'smiles_based_descriptors': [], 'smarts_based_descriptors': []}, 'param')
+    for k, v in inc.fields.items():
+        I.global_ids[id(v)] = 'included scheme .%s' % k
+    o1, o2 = Obj(cls, {}, 'fresh'), Obj(cls, {}, 'fresh')
+    r1 = run_target(I, SCH, 'GroupAdditivityScheme.__init__', [], {'include': [inc]}, self_obj=o1)
+    r2 = run_target(I, SCH, 'GroupAdditivityScheme.__init__', [], {}, self_obj=o2)
+    w = writes_of(ctx)
+    check_outcome(I, r2, raises={}, returns=lambda r: [
+        ('the including scheme holds the included patterns, remaps and descriptors', z3.BoolVal(r1.kind == 'return' and o1.fields.get('patterns') == [{'p': 'inc'}] and o1.fields.get('remaps') == {'a': [[1, 'b']]}
+                                                                                               and o1.fields.get('other_descriptors') == [{'d': 1}])),
+        ('a scheme built afterwards with no arguments is empty (nothing was left behind in the shared default arguments)',
+         z3.BoolVal(o2.fields.get('patterns') == [] and o2.fields.get('remaps') == {} and o2.fields.get('other_descriptors') == [] and o2.fields.get('pretreatment_rules') == [])),
+        ('no write to state that outlives the call (default arguments, the included scheme)', z3.BoolVal(not w)),
+        ('the included scheme is unchanged', z3.BoolVal(inc.fields['patterns'] == [{'p': 'inc'}] and inc.fields['remaps'] == {'a': [[1, 'b']]}))])
+    return {'inputs': {}}
+
+
+def replay_scheme_include(model, state, ob):
+    from pgradd.GroupAdd.Scheme import GroupAdditivityScheme
+    from . import real
+    with real.quiet():
+        a, b = GroupAdditivityScheme.Load('BensonGA'), GroupAdditivityScheme.Load('XieGA2022')
+        s1 = GroupAdditivityScheme(include=[a])
+        s2 = GroupAdditivityScheme(include=[b])
+        s3 = GroupAdditivityScheme()
+    bad = (len(s2.patterns) != len(b.patterns)) or len(s3.patterns) != 0
+    return {'failed': bad, 'input': "GroupAdditivityScheme(include=[Benson]); GroupAdditivityScheme(include=[Xie]); GroupAdditivityScheme()", 'observed': [len(s1.patterns), len(s2.patterns), len(s3.patterns)],
+            'expected': [len(a.patterns), len(b.patterns), 0],
+            'script': "from pgradd.GroupAdd.Scheme import GroupAdditivityScheme as S\na, b = S.Load('BensonGA'), S.Load('XieGA2022')\nS(include=[a]); print(len(S(include=[b]).patterns), len(b.patterns), len(S().patterns))   # expected equal, equal, 0\n"}
+
+
+def u_state_sites(I):
+    """inventory of the write sites to state shared between calls / objects (contracts/statescan.py): every site of the unchanged tree is
+    read and justified there; a new site makes this unit undecided (a transparent cache is legitimate, a harmful one is refuted by the
+    operation-histories stand-in)"""
+    from . import statescan
+    sites = statescan.scan(source.REPO)
+    new = [x for x in sites if x not in statescan.ALLOWED]
+    if new:
+        raise Unsupported('new write site(s) to state that outlives a call: %s' % '; '.join('%s %s: %s' % x for x in new[:4]))
+    for k in sites:
+        I.ctx.oblige('known shared-state write site is one of the justified ones: %s %s: %s' % k, z3.BoolVal(True))
+    I.ctx.oblige('the inventory is not empty (the scan sees the package)', z3.BoolVal(len(sites) >= 3))
     return {'inputs': {}}
 
 
@@ -171,8 +225,13 @@ UNITS = [
     Unit('GroupLibrary.Estimate [frame]', (LIB, 'GroupLibrary.Estimate'), u_estimate_frame),
     Unit('GroupAdditivityScheme.__init__ [frame]', (SCH, 'GroupAdditivityScheme.__init__'), u_scheme_init_defaults),
     Unit('GroupLibrary.Update [frame]', (LIB, 'GroupLibrary.Update'), u_update_frame, replay_update_frame),
+    Unit('GroupAdditivityScheme.__init__ [include, shared defaults]', (SCH, 'GroupAdditivityScheme.__init__'), u_scheme_init_include, replay_scheme_include),
+    Unit('lemma:shared-state write sites', None, u_state_sites, kind='lemma'),
 ]
 # frame ("pure") obligations proved in other properties' units
+for _u in UNITS:
+    if _u.name == 'lemma:shared-state write sites':
+        _u.scans_repo = True        # reads the whole package: an Unsupported from it is about changed code by construction (undecided, never a checker error)
 for mod, names in ((C01, ('get_CpoR', 'get_HoRT', 'get_SoR')), (C07, ('get_Selements',)), (C08, ('GetQueryMatches',)), (C12, ('qty_loader',))):
     for u in mod.UNITS:
         if any(n_ in u.name for n_ in names):
